@@ -8,6 +8,7 @@ import (
 	"go/constant"
 	"go/token"
 	"go/types"
+	"sort"
 	"strconv"
 	"strings"
 
@@ -665,6 +666,51 @@ func (e *Env) call(x *ast.CallExpr) Val {
 		mt := m.Ty.Underlying().(*types.Map)
 		k := e.ex.coerce(e.eval(x.Args[1]), mt.Key()).T
 		return Val{T: And(Not(Eq(m.T, IntLit("0"))), e.ex.mapHas(e.st, mt, m.T, k)), Ty: boolT}
+	case "local":
+		// local(name, n): the n-th (1-based, in source order) local variable called name - for names that are
+		// declared more than once in the function (shadowing)
+		id, ok := x.Args[0].(*ast.Ident)
+		if !ok {
+			panic(e.fail("local(name, n): needs an identifier"))
+		}
+		// local(name, T): the first local called name that has type T
+		wantT := e.resolveType(x.Args[1])
+		var n int64 = 1
+		if wantT == nil {
+			nv := e.eval(x.Args[1])
+			if nv.Const == nil {
+				panic(e.fail("local(name, n): needs a constant or a type"))
+			}
+			n, _ = constant.Int64Val(nv.Const)
+		}
+		var as []*ssa.Alloc
+		for _, b := range e.ex.fn.Blocks {
+			for _, in := range b.Instrs {
+				if a, ok := in.(*ssa.Alloc); ok && a.Comment == id.Name {
+					if wantT != nil && !types.Identical(a.Type().(*types.Pointer).Elem(), wantT) {
+						continue
+					}
+					as = append(as, a)
+				}
+			}
+		}
+		sort.Slice(as, func(i, j int) bool { return as[i].Pos() < as[j].Pos() })
+		if n < 1 || int(n) > len(as) {
+			panic(e.fail("unknown identifier %q (declaration %d)", id.Name, n))
+		}
+		a := as[n-1]
+		t := a.Type().(*types.Pointer).Elem()
+		cst := e.st
+		if e.cellSt != nil {
+			cst = e.cellSt
+		}
+		if e.ex.cells[a] {
+			return Val{T: e.ex.loadLoc(cst, &Loc{Kind: LCell, Cell: a, Ty: t}), Ty: t}
+		}
+		if v, ok := e.ex.vals[a]; ok && v.Loc == nil {
+			return Val{T: e.ex.loadLoc(cst, e.ex.locOfRef(v.T, t)), Ty: t}
+		}
+		panic(e.fail("unknown identifier %q (declaration %d not executed)", id.Name, n))
 	case "visited":
 		// visited(m, k): the range loop over map m has already produced key k (ghost state of the iteration)
 		m := e.eval(x.Args[0])
